@@ -150,17 +150,27 @@ def front_slices(tier):
     sl = []
     for target in ('fn', 'mod', 'trait', 'impl'):
         sl.append(dict(name=f'front/attr/{target}', mode='front', target=target, max_tokens=7 if big else 5, validate=8))
+    # module / impl bodies made of legal items: one item with every dimension between fixed neighbours, two items with reduced dimensions
+    sl.append(dict(name='front/item/mod-1', mode='front-item', what='mod', layout=['FN', 'a', 'STRUCT'], validate=10))
+    sl.append(dict(name='front/item/mod-2', mode='front-item', what='mod', layout=['ra', 'rb', 'rc'] if big else ['ra', 'rb'], validate=10))
+    sl.append(dict(name='front/item/impl-1', mode='front-item', what='impl', layout=['a'], validate=6))
+    sl.append(dict(name='front/item/impl-2', mode='front-item', what='impl', layout=['ra', 'rb', 'rc'] if big else ['ra', 'rb'], validate=6))
+    sl.append(dict(name='front/item/fn', mode='front-item', what='fn', layout=['a'], validate=8))
+    if big:
+        # arbitrary token lists (lazily chosen structured tokens, texts as solver strings); legality decided by the reference grammar
+        sl.append(dict(name='front/item/mod-tokens', mode='front-item', what='mod', max_tokens=6, validate=10, time_budget=1500))
+        sl.append(dict(name='front/item/fn-tokens', mode='front-item', what='fn', max_tokens=7, validate=8, time_budget=1500))
     return sl
 
 
 OTHER_FOR = {
     'C01': ['mod/items'],
-    'C02': ['mod/items', 'mod/visibility', 'impl/items', 'impl/attrs-async'],
+    'C02': ['mod/items', 'mod/visibility', 'impl/items', 'impl/attrs-async', 'front/item/'],
     'C03': ['mod/items', 'impl/items'],
     'C04': ['mod/items', 'impl/items', 'mod/attrs-async-opts'],
     'C06': ['trait/delegation', 'trait/generics', 'trait/opts'],
     'C07': ['impl/items', 'impl/attrs-async', 'trait/delegation', 'trait/generics'],
-    'C08': ['mod/items', 'mod/visibility', 'impl/items'],
+    'C08': ['mod/items', 'mod/visibility', 'impl/items', 'front/item/mod', 'front/item/impl'],
     'C09': ['trait/definition', 'trait/generics', 'trait/delegation'],
     'C10': ['mod/attrs-async-opts', 'trait/opts'],
     'C11': ['mod/attrs-async-opts', 'trait/opts'],
@@ -168,7 +178,7 @@ OTHER_FOR = {
     'C13': ['mod/visibility', 'mod/items', 'trait/delegation', 'trait/definition'],
     'C14': ['mod/attrs-async-opts', 'impl/items', 'trait/delegation'],
     'C17': ['front/attr/'],
-    'C15': ['front/attr/', 'mod/items', 'impl/items', 'impl/attrs-async', 'mod/attrs-async-opts', 'trait/delegation', 'trait/definition', 'trait/opts'],
+    'C15': ['front/attr/', 'front/item/mod-1', 'mod/items', 'impl/items', 'impl/attrs-async', 'mod/attrs-async-opts', 'trait/delegation', 'trait/definition', 'trait/opts'],
     'C16': ['impl/attrs-async'],
     'C18': ['mod/attrs-async-opts', 'impl/attrs-async', 'impl/items', 'trait/definition', 'trait/delegation'],
     'C19': ['mod/attrs-async-opts', 'impl/items', 'impl/attrs-async', 'trait/delegation', 'trait/opts', 'trait/generics'],
